@@ -73,8 +73,12 @@ var vpU uint64 = 3
 var vpNonJointOnly bool
 
 // vpTracker builds an arbitrary configuration satisfying the C13 invariants.
+// vpMaxBytes is the tracker's in-flight byte limit (symbolic, set per run).
+var vpMaxBytes uint64
+
 func vpTracker(allowEmpty bool) (tracker.ProgressTracker, vpAbs) {
-	trk := tracker.MakeProgressTracker(2, 0)
+	vpMaxBytes = vpU64()
+	trk := tracker.MakeProgressTracker(2, vpMaxBytes)
 	abs := vpAbs{class: map[uint64]int{}, pr: map[uint64]vpPr{}}
 	if allowEmpty && vpChoose(2) == 1 {
 		return trk, abs
@@ -93,7 +97,7 @@ func vpTracker(allowEmpty bool) (tracker.ProgressTracker, vpAbs) {
 		p := vpPr{match: vpU64(), next: vpU64(), active: vpBool()}
 		vpAssume(p.match < p.next)
 		abs.pr[id] = p
-		trk.Progress[id] = &tracker.Progress{Match: p.match, Next: p.next, RecentActive: p.active, IsLearner: c == vpLearner, Inflights: tracker.NewInflights(2, 0)}
+		trk.Progress[id] = &tracker.Progress{Match: p.match, Next: p.next, RecentActive: p.active, IsLearner: c == vpLearner, Inflights: tracker.NewInflights(2, vpMaxBytes)}
 		add := func(m *map[uint64]struct{}) {
 			if *m == nil {
 				*m = map[uint64]struct{}{}
@@ -174,6 +178,14 @@ func vpMatches(cfg tracker.Config, prs tracker.ProgressMap, a vpAbs, ids []uint6
 		want := a.pr[id]
 		vpAssert(vpAnd(pr.Match == want.match, pr.Next == want.next, pr.RecentActive == want.active), label+"/progress-values")
 		vpAssert(pr.Inflights != nil, label+"/inflights-present")
+		if pr.Inflights != nil && want.match == 0 && pr.Inflights.Count() == 0 && label != "C13/roundtrip/config" {
+			// the window of a (possibly new) member enforces the tracker's limits:
+			// after one message of b bytes it is full iff the byte limit is reached
+			b := vpU64()
+			w := pr.Inflights.Clone()
+			w.Add(1, b)
+			vpAssert(w.Full() == vpAnd(vpMaxBytes != 0, b >= vpMaxBytes), label+"/inflights-carry-tracker-limits")
+		}
 	}
 	vpAssert(len(prs) == n, label+"/no-extra-progress")
 	members := func(m map[uint64]struct{}) int { return len(m) }
